@@ -103,3 +103,165 @@ Example c07_witness :
   ([OOk 3; OOk 3; OErr 7%N; OOk 1; OErr 9%N; OOk 0],
    [(2, WErr 7%N); (3, WIntr); (3, WOk); (4, WErr 9%N); (5, WOk)], [0; 1; 3], []).
 Proof. vm_compute. reflexivity. Qed.
+
+(* ==== added after the audit of 2026-10-02 (selftest/audit/REPORT-2026-10-02.md) ==== *)
+Require Import Cadence.Proofs.AuditW.
+
+(* [A.9] an explicit flush never answers Interrupted and never panics: BufWriter::flush_buf
+   retries interrupted writes until the write succeeds or fails with a real error (the fuel of
+   the model's flush loop cannot run out).  Any state, reachable or not. *)
+Theorem c07_flush_never_interrupted : forall s op,
+  fst (flush_buf s op) <> RIntr /\ fst (flush_buf s op) <> RPanic.
+Proof. exact flush_buf_never_interrupted. Qed.
+
+Theorem c07_flush_result : forall c e script ops rs s n x s',
+  run_from (init c e script) 0 ops = (rs, s) -> step s n Flush = (x, s') -> x <> OIntr /\ x <> OPanic.
+Proof. exact flush_result_reach. Qed.
+
+(* [A.9] ... more precisely (any state): a Flush answers Ok(0), or an error [er]; in the latter
+   case what it appended to the log is some number [k] of interrupted attempts followed by ONE
+   attempt that failed with [er], each carrying the whole buffer and labelled with all pending
+   identities, and buffer, pending identities and the [written] counter are what they were *)
+Theorem c07_flush_answer : forall s n x s',
+  step s n Flush = (x, s') ->
+  x <> OIntr /\ x <> OPanic /\
+  (x = OOk 0 \/
+   exists er k, x = OErr er /\
+     lg s' = lg s ++ repeat {| a_bytes := bbuf s; a_out := WIntr; a_lab := Lines (bids s); a_op := n |} k
+                  ++ [{| a_bytes := bbuf s; a_out := WErr er; a_lab := Lines (bids s); a_op := n |}] /\
+     bbuf s' = bbuf s /\ bids s' = bids s /\ written s' = written s).
+Proof. exact flush_step_result. Qed.
+
+(* [A.9] an emit answers Interrupted only for a write attempted for its OWN metric (the bypass
+   of an oversized metric, or a part that fills the whole empty buffer and goes straight out):
+   the last attempt it made is that interrupted write - never for the automatic flush *)
+Theorem c07_emit_interrupted_own : forall c e script ops rs s n m s',
+  run_from (init c e script) 0 ops = (rs, s) -> step s n (Emit m) = (OIntr, s') ->
+  exists pre a, lg s' = lg s ++ pre ++ [a] /\ a_out a = WIntr /\ a_op a = n /\
+                (a_lab a = Lines [(n, m)] \/ a_lab a = Alone (n, m)).
+Proof.
+  intros c e script ops rs s n m s' R. apply emit_interrupted_own.
+  exact (proj1 (reach_inv _ _ _ _ _ _ R)).
+Qed.
+
+(* [A.3] the automatic flush inside an emit: an attempt made during an emit whose label does not
+   contain the new metric carries the WHOLE buffer and ALL pending identities, and is made only
+   because the new line does not fit behind the buffer; if it succeeds, no earlier metric stays
+   pending (only the new one may) and the pending identities are appended once, in order, to
+   what was sent, followed only by what the emit sends for its own metric; if it fails with an
+   error, the emit answers that error and the buffer stays as it was *)
+Theorem c07_emit_flushes_all : forall c e script ops rs s n m x s',
+  run_from (init c e script) 0 ops = (rs, s) -> step s n (Emit m) = (x, s') ->
+  forall a ms, In a (skipn (length (lg s)) (lg s')) -> a_lab a = Lines ms -> ~ In (n, m) ms ->
+    ms = bids s /\ a_bytes a = bbuf s /\ a_op a = n /\ bbuf s <> [] /\
+    c < length (bbuf s) + length m + length e /\
+    (a_out a = WOk ->
+       (bids s' = [] \/ bids s' = [(n, m)]) /\
+       exists own, Forall (fun b => (a_lab b = Lines [(n, m)] \/ a_lab b = Alone (n, m)) /\ a_op b = n) own /\
+                   sentL (lg s') = sentL (lg s) ++ bids s ++ sentL own) /\
+    (forall er, a_out a = WErr er -> x = OErr er /\ bbuf s' = bbuf s /\ bids s' = bids s).
+Proof. exact emit_flushes_all. Qed.
+
+(* [A.3] the exact shape of what one emit appends to the log, from any reachable state:
+   first the attempts [fl] of the automatic flush - none, or [k] interrupted ones and one final
+   one -, then the attempts [own] made for the new metric alone *)
+Theorem c07_emit_shape : forall c e script ops rs s n m x s',
+  run_from (init c e script) 0 ops = (rs, s) -> step s n (Emit m) = (x, s') ->
+  exists fl own, lg s' = lg s ++ fl ++ own /\
+   Forall (fun b => (a_lab b = Lines [(n, m)] \/ a_lab b = Alone (n, m)) /\ a_op b = n) own /\
+   (fl = [] \/
+    (bbuf s <> [] /\ c < length (bbuf s) + length m + length e /\ length m + length e <= c /\
+     exists k o, fl = repeat {| a_bytes := bbuf s; a_out := WIntr; a_lab := Lines (bids s); a_op := n |} k
+                      ++ [{| a_bytes := bbuf s; a_out := o; a_lab := Lines (bids s); a_op := n |}] /\
+       match o with
+       | WOk => (bids s' = [] \/ bids s' = [(n, m)]) /\
+                sentL (lg s') = sentL (lg s) ++ bids s ++ sentL own
+       | WErr er => x = OErr er /\ own = [] /\ bbuf s' = bbuf s /\ bids s' = bids s /\
+                    written s' = written s
+       | WIntr => False
+       end)).
+Proof.
+  intros c e script ops rs s n m x s' R S.
+  destruct (reach_inv _ _ _ _ _ _ R) as (I & C & E & _).
+  pose proof (emit_shape _ _ _ _ _ I S) as H. rewrite C, E in H. exact H.
+Qed.
+
+(* [A.3] the final drop (any state; in [run] the state reached and [op = length ops]): nothing on
+   an empty buffer; every attempt it makes carries the whole buffer and all pending identities;
+   if one succeeds nothing stays pending and the pending identities are appended once, in order,
+   to what was sent; if the drop ends on an error nothing of the buffer was sent *)
+Theorem c07_drop_sends_rest : forall s op,
+  let s' := mlw_drop s op in
+  (bbuf s = [] -> lg s' = lg s) /\
+  (forall a, In a (skipn (length (lg s)) (lg s')) ->
+     a_bytes a = bbuf s /\ a_lab a = Lines (bids s) /\ a_op a = op /\
+     (a_out a = WOk -> bbuf s' = [] /\ bids s' = [] /\ sentL (lg s') = sentL (lg s) ++ bids s) /\
+     (forall er, a_out a = WErr er ->
+        bbuf s' = bbuf s /\ bids s' = bids s /\ sentL (lg s') = sentL (lg s))).
+Proof. exact drop_sends_rest. Qed.
+
+(* [A.3] ... and its exact shape: [k] interrupted attempts, then one that is Ok or a real error *)
+Theorem c07_drop_shape : forall s op,
+  let s' := mlw_drop s op in
+  (bbuf s = [] -> lg s' = lg s /\ sc s' = sc s) /\
+  (bbuf s <> [] -> exists k o,
+     lg s' = lg s ++ repeat {| a_bytes := bbuf s; a_out := WIntr; a_lab := Lines (bids s); a_op := op |} k
+                  ++ [{| a_bytes := bbuf s; a_out := o; a_lab := Lines (bids s); a_op := op |}] /\
+     sentA (lg s') = sentA (lg s) /\
+     match o with
+     | WOk => bbuf s' = [] /\ bids s' = [] /\ sentL (lg s') = sentL (lg s) ++ bids s
+     | WErr _ => bbuf s' = bbuf s /\ bids s' = bids s /\ sentL (lg s') = sentL (lg s)
+     | WIntr => False
+     end).
+Proof. exact drop_shape. Qed.
+
+(* [A.19] zero-length lines are excluded from the identity ledgers only: on the byte level the
+   bytes of the successful whole-line writes followed by the buffer are exactly the concatenated
+   lines of ALL acknowledged fitting metrics, at every moment and after the final drop, for
+   every fault script *)
+Theorem c07_bytes_conserved : forall c e script ops rs s,
+  run_from (init c e script) 0 ops = (rs, s) ->
+  flat_map (fun a => match a_out a, a_lab a with WOk, Lines _ => a_bytes a | _, _ => [] end) (lg s) ++ bbuf s
+  = concat (map (fun g => snd g ++ e) (filter (fitg c e) (acked 0 ops rs))).
+Proof. exact bytes_conserved. Qed.
+
+Theorem c07_bytes_conserved_final : forall c e script ops rs s,
+  run c e script ops = (rs, s) ->
+  flat_map (fun a => match a_out a, a_lab a with WOk, Lines _ => a_bytes a | _, _ => [] end) (lg s) ++ bbuf s
+  = concat (map (fun g => snd g ++ e) (filter (fitg c e) (acked 0 ops rs))).
+Proof. exact bytes_conserved_final. Qed.
+
+(* non-vacuity: capacity 8; the third emit triggers a flush that is interrupted once and then
+   succeeds, the fifth one that fails; the final drop is interrupted once, then sends the rest *)
+Example c07_emit_drop_witness :
+  let '(rs, s) := run_from (init 8 [10%N] [WIntr; WOk; WErr 5%N; WIntr; WOk]) 0
+                    [Emit [1;2;3]; Emit [4;5]; Emit [6;7;8]; Emit [9]; Emit [1;1;1;1;1]]%N in
+  let s' := mlw_drop s 5 in
+  (rs, map (fun a => (a_op a, a_out a, a_bytes a)) (lg s), map fst (bids s),
+   map (fun a => (a_op a, a_out a, a_bytes a)) (skipn (length (lg s)) (lg s')), map fst (bids s'),
+   map fst (sentL (lg s'))) =
+  ([OOk 3; OOk 2; OOk 3; OOk 1; OErr 5%N],
+   [(2, WIntr, [1;2;3;10;4;5;10]%N); (2, WOk, [1;2;3;10;4;5;10]%N); (4, WErr 5%N, [6;7;8;10;9;10]%N)], [2; 3],
+   [(5, WIntr, [6;7;8;10;9;10]%N); (5, WOk, [6;7;8;10;9;10]%N)], [], [0; 1; 2; 3]).
+Proof. vm_compute. reflexivity. Qed.
+
+Example c07_bytes_conserved_witness :
+  let ops := [Emit [1;2]; Emit []; Emit [3;4;5]; Emit [1;1;1;1;1]; Emit [6]; Flush]%N in
+  let '(rs, s) := run_from (init 4 [] [WErr 9%N]) 0 ops in
+  (rs, okbytes (lg s), bbuf s, map fst (fit_ids 4 [] (acked 0 ops rs))) =
+  ([OOk 2; OOk 0; OErr 9%N; OOk 5; OOk 1; OOk 0], [1;2;6]%N, [], [0; 1; 4]).
+Proof. vm_compute. reflexivity. Qed.
+
+(* ==== added after the audit of 2026-10-02 (selftest/audit/REPORT-2026-10-02.md) ==== *)
+(* ------------------------------------------------------------------ audit A.6 addition *)
+Require Import Cadence.Proofs.AuditS.
+
+(* the ledger under faults (c07_ledger_final) for a life whose flushes go through the client and /
+   or a queuing wrapper: what was sent plus what is still buffered is exactly what fitted and was
+   acknowledged; the oversized metrics that went out alone are exactly those acknowledged *)
+Theorem c07_wrapped_ledger : forall c e script ops rs s,
+  hrun c e script ops = (rs, s) ->
+  filter (nzb e) (sentL (lg s) ++ bids s) =
+    filter (nzb e) (fit_ids c e (acked 0 (map plain ops) rs)) /\
+  sentA (lg s) = big_ids c e (acked 0 (map plain ops) rs).
+Proof. exact wrapped_ledger. Qed.
